@@ -94,7 +94,7 @@ def run(rep, tier, seed):
         vlib.log("design %s: %d distinct states, %.0fs" % (name, r.distinct, r.wall))
     drive(rep, work, binp, seed, 8000 if thorough else 1200, "assemble")
     # the command glue: the real binary end to end, judged by CliOutcome.tla
-    cli_common.run(rep, vlib.workdir("C01-cli"), seed, "extract", tier == "thorough")
+    cli_common.run(rep, vlib.workdir("C01-cli"), seed, "extract,ssh", tier == "thorough")
     rep.rule = ("case = blob of 0-7 chunks over 3 contents + the null chunk (sizes 40-120 bytes, or 200-9000 bytes around the 4096-byte block) x "
                 "prior target in {absent, empty, garbage, longer, shorter, older version, complete} x 0-2 seeds in {consistent, stale, truncated, "
                 "empty index, alias of the target} x action in {bail-out, skip, regenerate} x 1-3 workers x {no cloning, emulated FICLONERANGE} x "
